@@ -15,6 +15,7 @@ SPEC = {
              "and the bit sets of two fields of a class are disjoint. The serialization has to follow the setter: if the prior state serializes and the value "
              "set on a default object serializes, a serialize() that throws after setting it on the prior state is a violation (history-dependent setter). "
              "small_uint<n>(v) - where over-range values are rejected for every sub-byte / odd-width setter - is swept for every width n = 1..63 (all values of the representation type when it has <= 16 bits, boundary / single-bit / lane patterns above): in-range values are held exactly, over-range values throw. "
+             "TCP::set_flag / get_flag (an indexed one-bit accessor pair the generated table cannot hold) is swept over every flag x value x prior. From priors 1 and 2 the serialization of the prior state is compared with the one after set(0): every changed bit must be one of the field's bits. Re-setting the current value is a no-op on the wire: for every accepted seed packet - itself and with each of its first 32 bytes set to ff / inverted, so that reserved bits and sub-fields without accessors are populated - every layer and every scalar pair: x.f(x.f()) leaves the serialization unchanged (STP timers, lossy by API design, and RadioTap fields, presence-managed, excepted). "
              "Positions are compared with a table of the bit positions the specifications assign to 116 fields. distinct_nontrivial = distinct (class, field) pairs swept."),
     "claim": "Every scalar accessor pair of every layer class is swept over its whole value space (<= 16 bits) or over all single-bit and lane patterns (wider).",
     "note": "Trusted: alias-group and derived-byte tables in the harness (documented views of the same bits; checksum/length bytes), sanitizers.",
